@@ -149,6 +149,10 @@ _BINDING_MSG = re.compile(
     r"positional-only arguments? passed as keyword|keywords must be strings|takes no keyword arguments")
 
 
+class _ModuleRaised(_Raised):
+    """The generated module itself raised while being imported (before run() was called)."""
+
+
 def is_binding_error(r: _Raised) -> bool:
     return r.name == "TypeError" and bool(_BINDING_MSG.search(r.msg))
 
@@ -165,7 +169,16 @@ def run_cpython(src):
     buf = io.StringIO()
     with contextlib.redirect_stdout(buf), contextlib.redirect_stderr(buf):
         RT.reset()
-        mod = loader.load_module(src)  # our own rendering: an exception here is a generator bug
+        try:
+            mod = loader.load_module(src)
+        except SyntaxError:
+            raise  # our own rendering: a generator bug
+        except Exception as e:  # noqa: BLE001 - module level code (natively created closures) may raise by design
+            import types as _types
+
+            stub = _types.ModuleType("cvgen_failed_import")
+            stub.__file__ = None
+            return _ModuleRaised(e), [], stub
         try:
             val = mod.run()
         except Exception as e:  # noqa: BLE001 - the program under test may raise by design (incl. RecursionError)
@@ -386,6 +399,7 @@ class _Env:
     Outcome = Outcome
     Rejected = loader.Rejected
     Raised = _Raised
+    ModuleRaised = _ModuleRaised
     module_source = staticmethod(module_source)
     run_cpython = staticmethod(run_cpython)
     run_cohdl = staticmethod(run_cohdl)
